@@ -259,15 +259,6 @@ struct FileData {
 	evaluating: bool,
 }
 impl FileData {
-	fn new_string(data: IStr) -> Self {
-		Self {
-			string: Some(data),
-			bytes: None,
-			parsed: None,
-			evaluated: None,
-			evaluating: false,
-		}
-	}
 	fn new_bytes(data: IBytes) -> Self {
 		Self {
 			string: None,
@@ -348,12 +339,10 @@ impl State {
 		let file = match file {
 			Entry::Occupied(ref mut d) => d.get_mut(),
 			Entry::Vacant(v) => {
+				// Cache the bytes first: a file which is not valid UTF-8 is still read only once,
+				// `get_string` below reports the encoding error on every attempt.
 				let data = self.import_resolver().load_file_contents(&path)?;
-				v.insert(FileData::new_string(
-					std::str::from_utf8(&data)
-						.map_err(|_| ImportBadFileUtf8(path.clone()))?
-						.into(),
-				))
+				v.insert(FileData::new_bytes(data.as_slice().into()))
 			}
 		};
 		Ok(file
@@ -394,12 +383,10 @@ impl State {
 		let file = match file {
 			Entry::Occupied(ref mut d) => d.get_mut(),
 			Entry::Vacant(v) => {
+				// Cache the bytes first: a file which is not valid UTF-8 is still read only once,
+				// `get_string` below reports the encoding error on every attempt.
 				let data = self.import_resolver().load_file_contents(&path)?;
-				v.insert(FileData::new_string(
-					std::str::from_utf8(&data)
-						.map_err(|_| ImportBadFileUtf8(path.clone()))?
-						.into(),
-				))
+				v.insert(FileData::new_bytes(data.as_slice().into()))
 			}
 		};
 		if let Some(val) = &file.evaluated {
